@@ -52,6 +52,12 @@ pub fn solve_real_lp_problem_clarabel(lp: &LinearModel) -> Result<LpSolution<f64
             got: invalid_variables,
         });
     }
+    if domain.is_empty() {
+        // Clarabel cannot factor the empty system of a model without variables (it panics):
+        // such a model is decided directly, as `auto_solver` does
+        return super::common::solve_variable_free(lp)
+            .map(|value| LpSolution::new(vec![], value, indexmap::IndexMap::new()));
+    }
     solve_with_good_lp(
         lp,
         ::good_lp::clarabel,
